@@ -199,6 +199,38 @@ Section Run.
                    end
           | _ => (w, l, sym "bad-args")
           end
+        (* gemato update --incremental: last_mtime is the TIMESTAMP entry read as UTC *)
+        else if ustr_eqb c (u "update_inc") then
+          match args with
+          | [p; hs; scale] =>
+              (* scale: file times of this world are given in 1/scale seconds (sub-second mtimes) *)
+              match find_timestamp_l L dec pgp w l with
+              | Ok (l1, Some (_, ETs ts)) =>
+                  match update_entries_for_directory L dec pgp w l1 (x_str p) (x_opt x_strs hs) (Some (PyTime.utc_epoch ts * x_Z scale)%Z) with
+                  | Ok l' => (w, l', SL [sym "ok"; SL []])
+                  | Err e => (w, l, err_sx e)
+                  end
+              | Ok (_, _) => (w, l, SL [sym "err"; SL [sym "NoTimestamp"]])
+              | Err e => (w, l, err_sx e)
+              end
+          | _ => (w, l, sym "bad-args")
+          end
+        (* the CLI after the scan: TIMESTAMP := start of the scan, if requested or if there is one already *)
+        else if ustr_eqb c (u "touch_timestamp") then
+          match args with
+          | [flag; d] =>
+              match find_timestamp_l L dec pgp w l with
+              | Ok (l1, found) =>
+                  if x_bool flag || match found with Some _ => true | None => false end then
+                    match set_timestamp L dec pgp w l1 (dec_dt d) with
+                    | Ok l' => (w, l', SL [sym "ok"; SL []])
+                    | Err e => (w, l, err_sx e)
+                    end
+                  else (w, l1, SL [sym "ok"; SL []])
+              | Err e => (w, l, err_sx e)
+              end
+          | _ => (w, l, sym "bad-args")
+          end
         else if ustr_eqb c (u "find_timestamp") then
           match find_timestamp_l L dec pgp w l with
           | Ok (l', e) => (w, l', SL [sym "ok"; sopt (fun ie => enc_entry (snd ie)) e])
